@@ -129,6 +129,8 @@ def oracle(parts, outcome, obs):
                 return "frame %d: no recognised key, rows not in ascending address order" % k
             continue
         last = letters[-1]
+        if any(len(l) != len(fr[0]) for l in rows):
+            continue        # a 5-letter country code (ICAO1/ICAO2 blocks) widens its row: the cells cannot be cut by column
         keys = [key_of(last, l, cols) for l in rows]
         if any(x is None for x in keys):
             continue
